@@ -46,7 +46,12 @@ def ks_uniform(us):
 
 
 def ztest(sum_dev, sum_var):
+    """sum of bounded martingale differences (each in [-1, 1]) with predictable variance sum_var.  The p-value is the larger of the
+    normal tail and the Bernstein / Freedman bound 2 exp(-s^2 / (2 (V + s/3))), so that skewed increments (probabilities near 0 or 1,
+    few events) cannot produce an astronomically small p-value from a handful of unlikely outcomes."""
     if sum_var <= 0:
         return {'z': 0.0, 'p': 1.0}
     z = sum_dev / math.sqrt(sum_var)
-    return {'z': z, 'p': float(2 * norm.sf(abs(z)))}
+    s_ = abs(sum_dev)
+    bern = min(1.0, 2 * math.exp(-s_ * s_ / (2 * (sum_var + s_ / 3.0))))
+    return {'z': z, 'p': float(max(2 * norm.sf(abs(z)), bern))}
